@@ -473,6 +473,8 @@ class Sim:
 
     def close(self) -> None:
         self.finished = True
+        for job in getattr(self, "executor_jobs", ()):
+            job.abandon()
         self.externals.clear()
         self.injections.clear()
         try:
